@@ -328,8 +328,21 @@ class CallMixin:
         v = self.ev(node.args[0], st)
         if node.keywords:
             self.unsupported(node, "sorted with key")
-        if isinstance(v, VSet):
-            v = self.list_of_set(v, st)
+        if isinstance(v, VSet) and not getattr(v, "empty_literal", False):
+            # sorted(a_set): strictly ascending list of exactly the members (position function as witness)
+            r = fresh(TList(v.kty), "sorted")
+            i = z3.Int(fresh_name("so_i"))
+            j = z3.Int(fresh_name("so_j"))
+            k = z3.Const(fresh_name("so_k"), sort_of(v.kty))
+            pos = z3.Function(fresh_name("sorted_pos"), sort_of(v.kty), z3.IntSort())
+            st.assume(r.n == v.c)
+            st.assume(z3.ForAll([i, j], z3.Implies(z3.And(0 <= i, i < j, j < r.n), lex_lt(r.get(i), r.get(j), True))))
+            st.assume(z3.ForAll([i], z3.Implies(z3.And(0 <= i, i < r.n),
+                                                z3.And(z3.Select(v.m, z3.Select(r.a, i)), pos(z3.Select(r.a, i)) == i))))
+            st.assume(z3.ForAll([k], z3.Implies(z3.Select(v.m, k),
+                                                z3.And(0 <= pos(k), pos(k) < r.n, z3.Select(r.a, pos(k)) == k))))
+            self.trusted_axioms.add("sorted(S) for a set S is the strictly ascending list of exactly the members of S")
+            return r
         if not isinstance(v, VList):
             self.unsupported(node, "sorted of %s" % v.ty)
         r = fresh(v.ty, "sorted")
@@ -525,6 +538,8 @@ class CallMixin:
         args, kw = self.args_of(node, st)
         if attr == "add":
             x = args[0]
+            if isinstance(x, VOpt) and not getattr(s, "empty_literal", False) and not isinstance(s.kty, TOpt):
+                x = self.unopt(x, node, st, "None added to a set of non-optional values")
             if getattr(s, "empty_literal", False):
                 s = VSet(x.ty, z3.K(sort_of(x.ty), z3.BoolVal(False)), z3.IntVal(0))
             k = pack(coerce(x, s.kty))
@@ -559,6 +574,19 @@ class CallMixin:
             self.unsupported(node, "str.upper")
         if attr == "decode":
             return self.bytes_decode(s, node, st)
+        if attr == "split" and len(args) == 1 and isinstance(args[0], VStr):
+            # axiomatised: len == 1 iff the delimiter does not occur; the last piece is the suffix after the last occurrence
+            d = args[0]
+            self.oblige(st, "safety", node, z3.Length(d.t) > 0, "empty separator")
+            parts = fresh(TList(STR), "split")
+            last = z3.Select(parts.a, parts.n - 1)
+            pre = z3.String(fresh_name("split_prefix"))
+            st.assume(parts.n >= 1)
+            st.assume((parts.n == 1) == z3.Not(z3.Contains(s.t, d.t)))
+            st.assume(z3.Implies(parts.n == 1, z3.Select(parts.a, 0) == s.t))
+            st.assume(z3.Implies(parts.n > 1, z3.And(s.t == z3.Concat(pre, d.t, last), z3.Not(z3.Contains(last, d.t)))))
+            self.trusted_axioms.add("str.split(d): one piece iff d does not occur; last piece = suffix after the last occurrence of d")
+            return parts
         self.unsupported(node, "str method " + attr)
 
     def mutate(self, target_node, newval, st):
@@ -701,6 +729,9 @@ class CallMixin:
 
     # ---- user functions ------------------------------------------------------------------------------------
     def callee_def(self, c):
+        if getattr(c, "params", None):
+            args = ast.arguments(posonlyargs=[], args=[ast.arg(arg=p) for p in c.params], kwonlyargs=[], kw_defaults=[], defaults=[])
+            return ast.FunctionDef(name=c.short, args=args, body=[], decorator_list=[]), "", None
         return front.find_def(c.qual)
 
     def bind_params(self, c, fdef, args, kw, node, st):
